@@ -527,6 +527,9 @@ func genStage(r *rand.Rand, allowStateful bool) stageIn {
 	if r.Intn(14) == 0 {
 		// regexp: named groups become labels (k collides with a logfmt key on purpose); the line is untouched
 		names := []string{"k", "grp"}[:1+r.Intn(2)]
+		if r.Intn(3) == 0 {
+			names = []string{"app"} // the name of an attribute: the capture overrides it for THIS record only
+		}
 		var re *ReAST
 		for {
 			left := append([]string{}, names...)
@@ -686,7 +689,32 @@ func genLogq(r *rand.Rand, mode string) logqIn {
 	if mode == "select" && r.Intn(5) == 0 {
 		in.Recs = withTwins(r, in.Recs)
 	}
-	if mode == "select" && len(in.Recs) > 0 && r.Intn(10) == 0 {
+	if mode == "select" && len(in.Recs) > 1 && r.Intn(6) == 0 {
+		// a regexp stage whose group is named like an attribute all records share (ONE map in the store): the capture counts
+		// for the record it was made on; the next record, on which the expression finds nothing, shows the attribute again
+		for i := range in.Recs {
+			in.Recs[i].Attrs = [][2][]int{{B("app"), B("web")}}
+			if i%2 == 0 {
+				in.Recs[i].Line, in.Recs[i].Doc = B(pick(r, []string{"ab=1", "a=b", "ba k=a", "aab="})), [][2][]int{}
+			} else {
+				in.Recs[i].Line, in.Recs[i].Doc = B(pick(r, []string{"x", "", "zz9"})), [][2][]int{}
+			}
+		}
+		var re *ReAST
+		for {
+			left := []string{"app"}
+			re = genCapRe(r, 2, "abk= ", &left)
+			if len(left) == 0 {
+				break
+			}
+		}
+		raw, _ := json.Marshal(re)
+		in.Stages = []stageIn{{T: "regexp", Val: B(re.Text()), Re: raw}}
+		if r.Intn(2) == 0 {
+			eps, _ := json.Marshal(&ReAST{T: "eps"})
+			in.Stages = append(in.Stages, stageIn{T: "label", Pred: &predIn{T: "m", Label: B("app"), Op: allOps[r.Intn(2)], Val: B("web"), Re: eps}})
+		}
+	} else if mode == "select" && len(in.Recs) > 0 && r.Intn(10) == 0 {
 		// a regular expression that is a plain piece of some record's line, anchored: it matches the line that IS that piece
 		line := S(in.Recs[r.Intn(len(in.Recs))].Line)
 		if len(line) >= 2 {
